@@ -55,6 +55,10 @@ def cases(ctx):
         else:
             r = ['star', ['sum', [o1, x, ['star', y]], [o2, x, ['star', y]]]]
         yield {'r': r, 'words': gen.all_words(Sig, 4)}
+        if i % 3 == 0:      # x.y next to y.x (products do not commute), also under a star and followed by z
+            r2 = rng.choice([['sum', ['cat', x, y], ['cat', y, x]], ['cat', ['sum', ['cat', x, ['star', y]], ['cat', ['star', y], x]], z],
+                             ['star', ['sum', ['cat', x, ['sum', y, z]], ['cat', ['sum', y, z], x]]]])
+            yield {'r': r2, 'words': gen.all_words(Sig, 4)}
     # a star whose operand contains another star (one iteration may consume arbitrarily many letters): all words up to length 6
     for i in range(30 if not thorough else 300):
         x = gen.random_regexp(rng, rng.randint(0, 2), Sig)
